@@ -16,7 +16,7 @@ EXPLANATION = (
     "and every Some the function returns carries the Ok payload of the CAS. R3 (no check-then-act on indices): the slot read by the deferred pop is "
     "indexed by the value the RMW returned (never by a separate load), and the index of a deferred allocation originates in that pop or in the "
     "counter's RMW result. R4: the deferred kill only sets a bit: under &self the only state-changing call is AtomicBitSet::add_atomic on `killed`, "
-    "guarded by is_alive (C02-R1). R5: lazy queuing under &self only pushes onto the lock-free queue (C09-R3)."
+    "guarded by is_alive (C02-R1). W9: the allocator is neither reachable (private field) nor nameable (private type) from outside the crate, so user code under shared access can only use the entry points analysed here. R5: lazy queuing under &self only pushes onto the lock-free queue (C09-R3)."
 )
 NOT_DECIDED = ("everything about interleavings and memory orderings (Relaxed is used; whether that suffices is not decided); linearizability of the "
                "create/delete history; crossbeam's and hibitset's internal atomics")
@@ -46,6 +46,8 @@ def run(ctx):
         r3(ctx, facts, model)
         r4(ctx, facts, model)
         r5(ctx, facts)
+    from .. import witness
+    witness.run_set(ctx, "C10", ["w9_allocator_field_private", "w9_allocator_type_private"])
 
 
 def shared_roots(facts):
